@@ -105,6 +105,17 @@ fn viol(clause: &str, detail: String, at: usize) -> Violation {
 
 /// All C06 clauses on the current e-graph of a session. `seen_slots`: every real slot the
 /// simulator has handed to or received from the e-graph so far.
+fn collect_bound<L: SimLang>(re: &RecExpr<L>, out: &mut Vec<Slot>) {
+    for x in re.node.private_slots() {
+        if !out.contains(&x) && out.len() < 64 {
+            out.push(x);
+        }
+    }
+    for c in &re.children {
+        collect_bound(c, out);
+    }
+}
+
 pub fn check_extraction<L: SimLang, N: Analysis<L>>(s: &mut Sess<L, N>, kind: SimCost, rng: &mut Rng, out: &mut Outcome, at: usize) -> Option<Violation> {
     let oracle = m_cost(&s.eg, kind);
     let ex = Extractor::<L, SimCostFn>::new(&s.eg, SimCostFn(kind));
@@ -117,6 +128,7 @@ pub fn check_extraction<L: SimLang, N: Analysis<L>>(s: &mut Sess<L, N>, kind: Si
             existing.extend(n.all_slot_occurrences());
         }
     }
+    let mut seen_bound: Vec<Slot> = Vec::new();
     for id in ids {
         let cls_slots: Vec<Slot> = s.eg.slots(id).iter().copied().collect();
         // identity invocation and a renamed one
@@ -153,6 +165,20 @@ pub fn check_extraction<L: SimLang, N: Analysis<L>>(s: &mut Sess<L, N>, kind: Si
             out.bump("classes_without_finite_term");
             continue;
         }
+        // an argument that is spelled like a bound slot which an earlier result of this extractor
+        // showed (the user read the name off that result): it must not be captured
+        if !cls_slots.is_empty() && !seen_bound.is_empty() {
+            let b = seen_bound[rng.below(seen_bound.len())];
+            if !cls_slots.contains(&b) {
+                let mut m = SlotMap::new();
+                for x in &cls_slots {
+                    m.insert(*x, *x);
+                }
+                m.insert(cls_slots[rng.below(cls_slots.len())], b);
+                invs.push(AppliedId::new(id, m));
+                out.bump("invocations_with_a_shown_bound_name");
+            }
+        }
         for inv in invs {
             let best = ex.get_best_cost::<N>(&inv);
             if Some(&best) != oracle.get(&id) {
@@ -168,6 +194,7 @@ pub fn check_extraction<L: SimLang, N: Analysis<L>>(s: &mut Sess<L, N>, kind: Si
                     }
                 }
             }
+            collect_bound(&re, &mut seen_bound);
             // free slots: arguments of the query or slots unknown to the simulator (brand new)
             let args = inv.slots();
             let tm = from_re::<L>(&re, &mut s.nm);
